@@ -6,12 +6,18 @@
   C16.4 issuer key id / issuer fingerprint / recipient key id / key material all come from the operating key itself
   C16.5 effective flags come from the MOST RECENT self-signature (consumers of time-sorted collections read the recent end)
   C16.6 decryption finds the addressed component (recipient match, subkey delegation, own session-key packet)
+
+All rules read interpreter values (what is returned / yielded / called on each path, which collection a bound variable ranges
+over, which decisions a path took); "which end of a time-sorted collection" is decided on the expression tree of the value
+(reversed / [::-1] / sorted flip the order, next / [0] / [-1] / max / min pick an end), not on its spelling.
 """
 import ast
+import re
 
-from sa.interp import Interp, Scenario, Sym, Const, render
+from sa.interp import Interp, Scenario, Sym, Const, render, alpha
 from sa.loader import AnalysisError, dotted
 from sa import families, keyaction
+from sa.keyaction import atom_key, truthiness
 
 noinline = lambda f: False  # noqa: E731
 
@@ -31,119 +37,632 @@ def run(rep, prog, tier):
     families.check_ids_rooted_at_self(rep, prog, 'C16.4')
     check_recency(rep, prog)
     check_key_form_predicates(rep, prog)
-    families.check_pkesk_selection(rep, prog, 'C16.6')
-    families.check_sessionkey_consumers(rep, prog, 'C16.6')
+    check_pkesk_selection(rep, prog)
+    check_sessionkey_consumers(rep, prog)
     check_decrypt_delegation(rep, prog)
 
 
+# ------------------------------------------------------------------------------------------------ which end of a sorted collection
+def _norm_each(text):
+    """[x for x in C] / (x for x in C) rendered as EACH($k in C;$k) is the collection C in order"""
+    for _ in range(4):
+        new = re.sub(r'EACH\((\$[\d.]+) in ((?:[^;()]|\([^()]*\))+);\1\)', r'list(\2)', text)
+        if new == text:
+            break
+        text = new
+    return text
+
+
+def _parse(text):
+    text = _norm_each(text)
+    try:
+        return ast.parse(re.sub(r'\$(\d+)(?:\.(\d+))?', lambda m: 'B_%s_%s' % (m.group(1), m.group(2) or ''), text), mode='eval').body
+    except SyntaxError:
+        return None
+
+
+def order_of(node):
+    """('asc' | 'desc', base text) of an expression that re-arranges an ascending (time-sorted) base collection, else None."""
+    if isinstance(node, ast.Call):
+        fn = dotted(node.func)
+        if fn in ('list', 'tuple', 'iter', 'collections.deque', 'deque') and len(node.args) == 1 and not node.keywords:
+            return order_of(node.args[0])
+        if fn == 'reversed' and len(node.args) == 1:
+            o = order_of(node.args[0])
+            return None if o is None else ('desc' if o[0] == 'asc' else 'asc', o[1])
+        if fn == 'sorted' and len(node.args) == 1:
+            o = order_of(node.args[0])
+            kws = {k.arg: k.value for k in node.keywords}
+            if o is None or set(kws) - {'reverse'}:
+                return None
+            rev = kws.get('reverse')
+            if rev is not None and not isinstance(rev, ast.Constant):
+                return None
+            return ('desc' if rev is not None and rev.value else 'asc', o[1])
+        return None
+    if isinstance(node, ast.Subscript) and isinstance(node.slice, ast.Slice):
+        sl = node.slice
+        if sl.lower is None and sl.upper is None:
+            o = order_of(node.value)
+            if o is None:
+                return None
+            if sl.step is None:
+                return o
+            st = sl.step
+            if isinstance(st, ast.UnaryOp) and isinstance(st.op, ast.USub) and isinstance(st.operand, ast.Constant) and st.operand.value == 1:
+                return ('desc' if o[0] == 'asc' else 'asc', o[1])
+        return None
+    if isinstance(node, (ast.Attribute, ast.Name)):
+        return ('asc', ast.unparse(node))
+    return None
+
+
+def _int(node):
+    if isinstance(node, ast.Constant) and isinstance(node.value, int):
+        return node.value
+    if isinstance(node, ast.UnaryOp) and isinstance(node.op, ast.USub) and isinstance(node.operand, ast.Constant):
+        return -node.operand.value
+    return None
+
+
+def recency_of(text):
+    """('recent' | 'oldest', base text) if the value text selects one end of a re-arranged time-sorted base, else None."""
+    node = _parse(text)
+    if node is None:
+        return None
+    end = coll = None
+    if isinstance(node, ast.Call):
+        fn = dotted(node.func)
+        if fn == 'next' and node.args:
+            end, coll = 'first', node.args[0]
+        elif fn in ('max', 'min') and len(node.args) == 1 and not node.keywords:
+            o = order_of(node.args[0])
+            return None if o is None else ('recent' if fn == 'max' else 'oldest', o[1])
+        elif isinstance(node.func, ast.Attribute) and node.func.attr in ('pop', 'popleft') and not node.args:
+            end, coll = ('last' if node.func.attr == 'pop' else 'first'), node.func.value
+    elif isinstance(node, ast.Subscript) and not isinstance(node.slice, ast.Slice):
+        i = _int(node.slice)
+        if i in (0, -1):
+            end, coll = ('first' if i == 0 else 'last'), node.value
+    if end is None:
+        return None
+    o = order_of(coll)
+    if o is None:
+        return None
+    recent = (end == 'first') == (o[0] == 'desc')
+    return ('recent' if recent else 'oldest', o[1])
+
+
+def _strip(t):
+    t = t.strip()
+    while t.startswith('(') and t.endswith(')') and keyaction._balanced(t[1:-1]):
+        t = t[1:-1].strip()
+    return t
+
+
+def _split_top(t, sep):
+    out, depth, cur, i = [], 0, '', 0
+    while i < len(t):
+        ch = t[i]
+        if ch in '([{':
+            depth += 1
+        elif ch in ')]}':
+            depth -= 1
+        if depth == 0 and t.startswith(sep, i):
+            out.append(cur)
+            cur = ''
+            i += len(sep)
+            continue
+        cur += ch
+        i += 1
+    out.append(cur)
+    return [x.strip() for x in out]
+
+
+class BoolFn(object):
+    """A rendered condition (possibly several fused `if` clauses) as a boolean function of its relations (skeleton built by
+    keyaction.skel_from_text; == / != / is / is not atoms are one relation with a polarity, as in keyaction.atom_key)."""
+    def __init__(self, text):
+        self.skels = [keyaction.skel_from_text(p_) for p_ in _split_top(text, ' if ')]
+        self.atoms = []
+        for sk in self.skels:
+            for a in keyaction.skel_atoms(sk):
+                if a[0] != 'const' and atom_key(a)[0] not in self.atoms:
+                    self.atoms.append(atom_key(a)[0])
+
+    def value(self, assign):
+        def val(a):
+            if a[0] == 'const':
+                return a[1]
+            k, pos = atom_key(a)
+            return assign[k] if pos else not assign[k]
+        return all(keyaction.eval_skel(sk, val) for sk in self.skels)
+
+    def assignments(self):
+        import itertools
+        for vals in itertools.product((True, False), repeat=len(self.atoms)):
+            yield dict(zip(self.atoms, vals))
+
+
+def path_relations(s):
+    """relation key -> truth value, for the decisions of a path whose outcome fixes the relation: a bare test, a negated one,
+    a conjunction taken as true (every conjunct holds), a disjunction taken as false (no disjunct holds)."""
+    out = {}
+
+    def learn(sk, v):
+        if sk is None or sk[0] == 'const':
+            return
+        if sk[0] == 'not':
+            learn(sk[1], not v)
+        elif sk[0] in ('and', 'or'):
+            if (sk[0] == 'and') == v:
+                for x in sk[1]:
+                    learn(x, v)
+        else:
+            k, pos = atom_key(sk)
+            out[k] = v if pos else not v
+    for t, v, sk in s.facts:
+        learn(sk, v)
+    return out
+
+
 # ------------------------------------------------------------------------------------------------ C16.5
-RECENT_OK = ('reversed', '[-1]', 'max')
-RECENT_BAD = ('next(self.', 'next(iter(', '[0]', 'min(')
-
-
-def classify_recency(expr_text):
-    t = expr_text.replace(' ', '')
-    if 'reversed(' in t or t.endswith('[-1]') or '[-1].' in t or 'max(' in t:
-        return 'recent'
-    if t.startswith('next(self.') or t.startswith('next(iter(') or '[0]' in t or 'min(' in t or t.startswith('next(('):
-        return 'oldest'
-    return 'unknown'
-
-
 def check_recency(rep, prog):
-    # sorting premise
+    # sorting premise: signatures compare by creation time; insertion bisects
     lt = prog.method('pgpy.pgp', 'PGPSignature', '__lt__')
+    a, b = lt.params[0], lt.params[1]
     for s in Interp(prog, Scenario(inline=noinline)).run(lt):
-        rep.check(render(s.ret).replace(' ', '') == '(self.created<other.created)', 'C16.5', 'PGPSignature.__lt__', 'orders by %s' % render(s.ret),
+        r = _strip(render(s.ret))
+        good = ('%s.created < %s.created' % (a, b), '%s.created > %s.created' % (b, a), 'operator.lt(%s.created, %s.created)' % (a, b),
+                'operator.gt(%s.created, %s.created)' % (b, a))
+        if r not in good and not re.match(r'^(?:operator\.\w+\()?[\w.]+(?: [<>]=? |, )[\w.]+\)?$', r):
+            raise AnalysisError('PGPSignature.__lt__: ordering %s not understood' % r)
+        rep.check(r in good, 'C16.5', 'PGPSignature.__lt__', 'orders by %s' % r,
                   'signature collections are ordered by creation time (premise of the recency rule)', where=lt.where)
     ins = prog.method('pgpy.types', 'SorteDeque', 'insort')
-    src = ast.unparse(ins.node)
-    rep.check('bisect.bisect_left(self, item)' in src and 'self.rotate(-i)' in src.replace(' ', '') and 'self.appendleft(item)' in src and
-              'self.rotate(i)' in src, 'C16.5', 'SorteDeque.insort', 'bisect + rotate insert', 'insertion keeps the deque sorted ascending', where=ins.where)
-    # PGPUID.selfsig: first match from the recent end
-    ss = prog.method('pgpy.pgp', 'PGPUID', 'selfsig')
-    loops = [n for n in ast.walk(ss.node) if isinstance(n, ast.For)]
-    ok = len(loops) == 1 and classify_recency(ast.unparse(loops[0].iter)) == 'recent' and '_signatures' in ast.unparse(loops[0].iter)
-    rep.check(ok, 'C16.5', 'PGPUID.selfsig', 'scan %s' % [ast.unparse(l.iter) for l in loops],
-              'the self-signature in effect is the most recent one: the scan must start at the recent end', where=ss.where,
-              expected='for sig in reversed(self._signatures)', found=[ast.unparse(l.iter) for l in loops])
-    # it returns the first match and compares the issuer with the parent key
-    rets = [n for n in ast.walk(ss.node) if isinstance(n, ast.Return) and n.value is not None]
-    rep.check(bool(rets) and all(ast.unparse(r.value) == 'sig' for r in rets), 'C16.5', 'PGPUID.selfsig', 'returns the matching signature',
-              'the first (most recent) signature issued by the parent key is the self-signature', where=ss.where)
-    cmps = [ast.unparse(n).replace(' ', '') for n in ast.walk(ss.node) if isinstance(n, ast.Compare)]
-    rep.check('self.parent.fingerprint==sig.signer_fingerprint' in cmps and 'self.parent.fingerprint==sig.signer' in cmps, 'C16.5', 'PGPUID.selfsig',
-              'issuer tests %s' % cmps, 'a self-signature is one issued by the key the identity belongs to', where=ss.where)
-    # PGPKey._get_key_flags
-    gk = prog.method('pgpy.pgp', 'PGPKey', '_get_key_flags')
-    for primary in (True, False):
-        sc = Scenario(bind={'self.is_primary': Const(primary)}, args={'user': Const(None)}, inline=noinline,
-                      axioms={'self._uids': True})
-        for s in Interp(prog, sc).run(gk):
-            r = render(s.ret)
-            if primary:
-                ok = 'KeyFlags.Certify' in r and 'selfsig.key_flags' in r
-                rep.check(ok, 'C16.5', 'PGPKey._get_key_flags', 'primary: %s' % r[:100],
-                          'a primary key has Certify plus the flags of its identity\'s (most recent) self-signature', where=gk.where)
-            else:
-                kind = classify_recency(r.rsplit('.key_flags', 1)[0]) if r.endswith('.key_flags') else 'unknown'
-                if kind == 'unknown':
-                    raise AnalysisError('PGPKey._get_key_flags subkey arm: unrecognised selection %s' % r)
-                rep.check(kind == 'recent' and 'self_signatures' in r, 'C16.5', 'PGPKey._get_key_flags', 'subkey: %s' % r,
-                          'a subkey\'s capability comes from its MOST RECENT binding signature, not the oldest', where=gk.where,
-                          expected='next(reversed(list(self.self_signatures))).key_flags', found=r)
-    # self_signatures keeps the sorted order (a generator over the deque, filtered)
-    sf = prog.cls('pgpy.pgp', 'PGPKey').methods.get('self_signatures')
-    srcs = [ast.unparse(n.iter) for n in ast.walk(sf.node) if isinstance(n, ast.comprehension)]
-    rep.check(srcs == ['self._signatures'], 'C16.5', 'PGPKey.self_signatures', 'iterates %s' % srcs,
-              'the candidates are taken from the time-sorted signature collection in order', where=sf.where)
-    t = ast.unparse(sf.node).replace(' ', '')
-    rep.check('sig.type==keytype' in t and 'sig.signer==keyid' in t and 'notsig.is_expired' in t, 'C16.5', 'PGPKey.self_signatures', 'filters',
-              'self-signatures are those of the right type issued by the owning primary and not expired', where=sf.where)
+    me, item = ins.params[0], ins.params[1]
+    for s in Interp(prog, Scenario(inline=noinline)).run(ins):
+        calls = [(c[0], [a.replace('--', '') for a in c[1]]) for c in s.calls]
+        # the position: a bisection of the deque itself for the new item (optionally over the explicit full range)
+        pos = [('%s(%s)' % (f, ', '.join(a))) for f, a in calls if f in ('bisect.bisect_left', 'bisect.bisect_right', 'bisect.bisect') and
+               a[:2] == [me, item] and a[2:] in ([], ['0'], ['0', 'len(%s)' % me])]
+        mut = [(f, a) for f, a in calls if f.startswith(me + '.') or f.startswith('bisect.insort')]
+        ok = any(mut == [('%s.rotate' % me, ['-' + p]), ('%s.appendleft' % me, [item]), ('%s.rotate' % me, [p])] or
+                 mut == [('%s.insert' % me, [p, item])] for p in pos) or \
+            mut in ([(f, [me, item])] for f in ('bisect.insort', 'bisect.insort_left', 'bisect.insort_right'))
+        known = ('rotate', 'appendleft', 'append', 'insert', 'insort', 'insort_left', 'insort_right')
+        if not ok and any(f.split('.')[-1] not in known for f, a in mut):
+            raise AnalysisError('SorteDeque.insort: unrecognised sorted insertion %s' % mut)
+        rep.check(ok, 'C16.5', 'SorteDeque.insort', 'bisect + rotate insert', 'insertion keeps the deque sorted ascending', where=ins.where, found=mut)
+    check_selfsig(rep, prog)
+    check_get_key_flags(rep, prog)
+    check_self_signatures(rep, prog)
     # key_flags reads the hashed KeyFlags subpacket
     kf = prog.method('pgpy.pgp', 'PGPSignature', 'key_flags')
-    t = ast.unparse(kf.node)
-    rep.check("subpackets['h_KeyFlags']" in t, 'C16.5', 'PGPSignature.key_flags', 'reads the hashed KeyFlags subpacket',
-              'capabilities must come from the signed (hashed) key-flags subpacket', where=kf.where)
+    reads = []
+    for s in Interp(prog, Scenario(inline=noinline)).run(kf):
+        if s.raised is None and s.ret is not None:
+            reads += re.findall(r"subpackets\[('[^']*')\]", render(s.ret))
+    rep.check(bool(reads) and set(reads) == {"'h_KeyFlags'"}, 'C16.5', 'PGPSignature.key_flags', 'reads the hashed KeyFlags subpacket',
+              'capabilities must come from the signed (hashed) key-flags subpacket', where=kf.where, expected="subpackets['h_KeyFlags']", found=sorted(set(reads)))
+
+
+def check_selfsig(rep, prog):
+    """PGPUID.selfsig: the first signature issued by the parent key, scanning from the recent end."""
+    ss = prog.method('pgpy.pgp', 'PGPUID', 'selfsig')
+    me = ss.params[0]
+    outs = Interp(prog, Scenario(inline=noinline)).run(ss)
+    found = [s for s in outs if s.raised is None and s.ret is not None and render(s.ret) != 'None']
+    scans, issuer_ok, first_ok = [], True, True
+    sides = {}
+    for s in found:
+        r = render(s.ret)
+        coll = s.bound.get(r)
+        if coll is None:
+            sel = recency_of(r)          # e.g. next(sig for sig in reversed(...) if ...) is not a bound variable
+            raise AnalysisError('PGPUID.selfsig: returned value %s is not an element of a scanned collection (%s)' % (r, sel))
+        o = order_of(_parse(coll)) if _parse(coll) is not None else None
+        scans.append((coll, o))
+        # inside the loop and returned at once: the first match in scan order
+        first_ok = first_ok and any(f[0].startswith('in loop over') for f in s.facts)
+        # the decisions on this path say: issued by the key the identity belongs to
+        rel = path_relations(s)
+        mine = []
+        for k, v in rel.items():
+            if v is True and k[0] == 'eq' and ('%s._parent.fingerprint' % me) in k[1] and len(k[1]) == 2:
+                other = [x for x in k[1] if x != '%s._parent.fingerprint' % me][0]
+                fields = re.findall(r'%s\.(signer_fingerprint|signer)\b' % re.escape(r), other)
+                # the issuer named by the candidate itself: its issuer fingerprint, its issuer key id, or the first of them that is set
+                if fields and not re.sub(r'%s\.(signer_fingerprint|signer)\b|[()\s]|\bor\b' % re.escape(r), '', other):
+                    mine.append(k)
+                    for fld in fields:
+                        sides[fld] = True
+        issuer_ok = issuer_ok and bool(mine)
+    if not found:
+        raise AnalysisError('PGPUID.selfsig: no path returns a signature')
+    ok = all(o is not None and o == ('desc', '%s._signatures' % me) for c, o in scans)
+    if not ok and any(o is None for c, o in scans):
+        raise AnalysisError('PGPUID.selfsig: scan order of %s not understood' % [c for c, o in scans if o is None])
+    rep.check(ok, 'C16.5', 'PGPUID.selfsig', 'scan %s' % sorted(set(c for c, o in scans)),
+              'the self-signature in effect is the most recent one: the scan must start at the recent end', where=ss.where,
+              expected='for sig in reversed(self._signatures)', found=sorted(set(c for c, o in scans)))
+    rep.check(first_ok, 'C16.5', 'PGPUID.selfsig', 'returns the matching signature',
+              'the first (most recent) signature issued by the parent key is the self-signature', where=ss.where)
+    rep.check(issuer_ok and set(sides) == {'signer_fingerprint', 'signer'}, 'C16.5', 'PGPUID.selfsig',
+              'issuer tests %s' % sorted(sides), 'a self-signature is one issued by the key the identity belongs to', where=ss.where,
+              expected='parent fingerprint == issuer fingerprint, else == issuer key id', found=sorted(sides))
+
+
+def check_get_key_flags(rep, prog):
+    gk = prog.method('pgpy.pgp', 'PGPKey', '_get_key_flags')
+    me = gk.params[0]
+    up = gk.params[1] if len(gk.params) > 1 else None
+    if up is None:
+        raise AnalysisError('PGPKey._get_key_flags: identity parameter vanished')
+    CERT = '{KeyFlags.Certify}'
+    for label, uval in (('default identity', Const(None)), ('chosen identity', Sym(up, nonnull=True))):
+        sc = Scenario(bind={'%s.is_primary' % me: Const(True)}, args={up: uval}, inline=noinline)
+        granted = []
+        for s in Interp(prog, sc).run(gk):
+            if s.raised is not None:
+                continue
+            r = render(s.ret)
+            ops = _split_top(_strip(r), ' | ')
+            rel = path_relations(s)
+            ok = CERT in ops
+            rest = [o for o in ops if o != CERT]
+            for o in rest:
+                m = re.match(r'^(.+)\.selfsig\.key_flags$', _strip(o))
+                m2 = re.match(r'^\((.+)\.selfsig\.key_flags if (.+)\.selfsig else set\(\)\)$', o)
+                if m2 and m2.group(1) == m2.group(2):
+                    granted.append(m2.group(1))
+                elif m and rel.get(('expr', '%s.selfsig' % m.group(1)), True):
+                    granted.append(m.group(1))
+                elif _strip(o) == 'set()' and any(k[0] == 'expr' and k[1].endswith('.selfsig') and v is False for k, v in rel.items()):
+                    pass
+                else:
+                    ok = False
+            if not rest:
+                # Certify alone: only for a key that has no identity at all, or whose identity has no self-signature
+                empty = [k for k, v in rel.items() for c in ('%s._uids' % me, '%s.userids' % me)
+                         if truthiness(k, c) is not None and v != truthiness(k, c)]
+                nosig = [k for k, v in rel.items() if k[0] == 'expr' and k[1].endswith('.selfsig') and v is False]
+                ok = ok and ((bool(empty) and label == 'default identity') or bool(nosig))
+            rep.check(ok, 'C16.5', 'PGPKey._get_key_flags', 'primary (%s): %s' % (label, r[:100]),
+                      'a primary key has Certify plus the flags of its identity\'s (most recent) self-signature', where=gk.where, found=r, scenario=label)
+        want = '%s.get_uid(%s)' % (me, up) if label == 'chosen identity' else None
+        ok = bool(granted) and all((g == want) if want else re.search(r'(?<![\w.])%s\.(userids|_uids)\b' % re.escape(me), g) is not None for g in granted)
+        rep.check(ok, 'C16.5', 'PGPKey._get_key_flags', 'flags granted through %s' % sorted(set(granted)),
+                  'the capabilities of a primary key are those its (chosen) identity\'s self-signature grants', where=gk.where,
+                  expected=want or 'an identity of this key', found=sorted(set(granted)), scenario=label)
+    sc = Scenario(bind={'%s.is_primary' % me: Const(False)}, args={up: Const(None)}, inline=noinline)
+    for s in Interp(prog, sc).run(gk):
+        if s.raised is not None:
+            continue
+        r = render(s.ret)
+        sel = recency_of(r[:-len('.key_flags')]) if r.endswith('.key_flags') else None
+        if sel is None:
+            every = [b for b, coll in s.bound.items() if re.search(re.escape(b) + r'(?!\.?\d)', r) and
+                     order_of(_parse(coll) or ast.Constant(0)) == ('asc', '%s.self_signatures' % me)]
+            if every and not r.endswith('.key_flags'):
+                # a value computed from EVERY binding signature (union, accumulation) - not the one in effect
+                rep.violation('C16.5', 'PGPKey._get_key_flags', 'subkey: %s' % r,
+                              'a subkey\'s capability comes from its MOST RECENT binding signature, not from all of them', where=gk.where,
+                              expected='next(reversed(list(self.self_signatures))).key_flags', found=r)
+                continue
+            raise AnalysisError('PGPKey._get_key_flags subkey arm: unrecognised selection %s' % r)
+        rep.check(sel == ('recent', '%s.self_signatures' % me), 'C16.5', 'PGPKey._get_key_flags', 'subkey: %s' % r,
+                  'a subkey\'s capability comes from its MOST RECENT binding signature, not the oldest', where=gk.where,
+                  expected='next(reversed(list(self.self_signatures))).key_flags', found=r)
+
+
+def check_self_signatures(rep, prog):
+    """self_signatures keeps the sorted order (the time-sorted deque, filtered): right type, issued by the owning primary, not expired."""
+    sf = prog.cls('pgpy.pgp', 'PGPKey').methods.get('self_signatures')
+    if sf is None:
+        raise AnalysisError('PGPKey.self_signatures vanished')
+    me = sf.params[0]
+    sigs = '%s._signatures' % me
+    for primary, owner, kind in ((True, '%s.fingerprint.keyid' % me, 'SignatureType.DirectlyOnKey'),
+                                 (False, '%s._parent.fingerprint.keyid' % me, 'SignatureType.Subkey_Binding')):
+        scen = 'primary=%s' % primary
+        sc = Scenario(bind={'%s.is_primary' % me: Const(primary)}, inline=noinline, extended=True)
+        outs = Interp(prog, sc).run(sf)
+        ys = [render(y) for s in outs for y in s.yields]
+        m = re.match(r'^\*?EACH\((\$[\d.]+) in (.+?)(?: if (.+))?;(?:(\$[\d.]+)|ALT\((\$[\d.]+) \| \)|ALT\( \| (\$[\d.]+)\))\)$', ys[0]) \
+            if len(outs) == 1 and len(ys) == 1 else None
+        if not m or m.group(1) != (m.group(4) or m.group(5) or m.group(6)):
+            raise AnalysisError('PGPKey.self_signatures: yields %s, not the filtered elements of one collection' % ys)
+        v, coll, cond = m.group(1), m.group(2), m.group(3)
+        if m.group(4) is None and cond is not None:
+            raise AnalysisError('PGPKey.self_signatures: filtered twice (%s)' % ys)
+        o = order_of(_parse(coll)) if _parse(coll) is not None else None
+        rep.check(o == ('asc', sigs), 'C16.5', 'PGPKey.self_signatures', 'iterates %s' % coll,
+                  'the candidates are taken from the time-sorted signature collection in order', where=sf.where, scenario=scen)
+        want = [('eq', frozenset(('%s.type' % v, kind))), ('eq', frozenset(('%s.signer' % v, owner))), ('expr', '%s.is_expired' % v)]
+        if cond is not None:
+            # the filter as a boolean function: it may only pass signatures for which all three relations hold, and passes some
+            fn = BoolFn(cond)
+            if not any(w in fn.atoms for w in want):
+                raise AnalysisError('PGPKey.self_signatures: filter %s not understood' % cond)
+            ok, found, passes = True, None, False
+            for a in fn.assignments():
+                if fn.value(a):
+                    passes = True
+                    if not (a.get(want[0]) is True and a.get(want[1]) is True and a.get(want[2]) is False):
+                        ok, found = False, 'passes a signature under [%s]' % keyaction._show(a)
+            if not passes:
+                ok, found = False, 'the filter %s never passes' % cond
+        else:
+            # a plain loop with an inner test: decisions inside a summarised loop are not kept, so run the body for one
+            # element and read the truth table: the element is yielded iff all three relations hold
+            el = Sym('SIG', nonnull=True)
+            want = [(w[0], frozenset(x.replace(v, 'SIG') for x in w[1])) if w[0] == 'eq' else (w[0], w[1].replace(v, 'SIG')) for w in want]
+            outs = Interp(prog, Scenario(bind={'%s.is_primary' % me: Const(primary)}, unroll={coll: [el]}, inline=noinline, extended=True)).run(sf)
+            ok, found = True, None
+            for assign in keyaction.assignments(outs):
+                hit = [s for s in outs if keyaction.consistent(s, assign)]
+                expect = assign.get(want[0]) is True and assign.get(want[1]) is True and assign.get(want[2]) is False
+                for s in hit:
+                    got = [render(y) for y in s.yields]
+                    if got not in ([], ['SIG']):
+                        raise AnalysisError('PGPKey.self_signatures: yields %s for one element' % got)
+                    if (got == ['SIG']) != expect:
+                        ok, found = False, 'under [%s] the signature is %s' % (keyaction._show(assign), 'yielded' if got else 'dropped')
+        rep.check(ok, 'C16.5', 'PGPKey.self_signatures', 'filters',
+                  'self-signatures are those of the right type issued by the owning primary and not expired', where=sf.where,
+                  expected=[str(w) for w in want], found=found, scenario=scen)
 
 
 # ------------------------------------------------------------------------------------------------ key-form predicates
 def check_key_form_predicates(rep, prog):
     """is_unlocked / is_protected are derived from the packet, so the precondition table means what it says."""
     iu = prog.method('pgpy.pgp', 'PGPKey', 'is_unlocked')
-    cases = [({'self.is_public': Const(True)}, 'True'), ({'self.is_public': Const(False), 'self.is_protected': Const(False)}, 'True'),
-             ({'self.is_public': Const(False), 'self.is_protected': Const(True)}, 'self._key.unlocked')]
+    me = iu.params[0]
+    # the packet-level facts are the scenario; is_protected is read through its own definition (so a getter that asks the packet
+    # directly and one that goes through the property are the same)
+    cases = [({'%s.is_public' % me: Const(True)}, 'True'), ({'%s.is_public' % me: Const(False), '%s._key.protected' % me: Const(False)}, 'True'),
+             ({'%s.is_public' % me: Const(False), '%s._key.protected' % me: Const(True)}, '%s._key.unlocked' % me)]
     for bind, want in cases:
-        for s in Interp(prog, Scenario(bind=bind, inline=noinline)).run(iu):
+        for s in Interp(prog, Scenario(bind=bind, inline=noinline, inline_props={'is_protected'}, extended=True)).run(iu):
             rep.check(render(s.ret) == want, 'C16.2', 'PGPKey.is_unlocked', '%s -> %s' % ({k: render(v) for k, v in bind.items()}, render(s.ret)),
                       'a protected private key counts as unlocked only when its packet says so', where=iu.where, expected=want, found=render(s.ret))
     ul = prog.method('pgpy.packet.packets', 'PrivKeyV4', 'unlocked')
-    for s in Interp(prog, Scenario(bind={'self.protected': Const(True)}, inline=noinline)).run(ul):
-        rep.check(render(s.ret).replace(' ', '') == '(0notinlist(self.keymaterial))', 'C16.2', 'PrivKeyV4.unlocked', render(s.ret),
-                  'a protected key packet is unlocked iff none of its integers is the zero placeholder', where=ul.where)
+    me = ul.params[0]
+    km = '%s.keymaterial' % me
+
+    def zero_free(text):
+        """True: the text says "no element of the key material is 0"; False: recognisably something else; None: not understood"""
+        t = alpha(_strip(_norm_each(text)))
+        if re.match(r'^all\(EACH\(\$1 in %s;\(\$1 != 0\)\)\)$' % re.escape(km), t) or \
+                re.match(r'^not any\(EACH\(\$1 in %s;\(\$1 == 0\)\)\)$' % re.escape(km), t):
+            return True
+        node = _parse(t)
+        neg = False
+        while isinstance(node, ast.UnaryOp) and isinstance(node.op, ast.Not):
+            node, neg = node.operand, not neg
+        if isinstance(node, ast.Constant):
+            return False
+        if isinstance(node, ast.Compare) and len(node.ops) == 1 and isinstance(node.ops[0], (ast.In, ast.NotIn)) and _int(node.left) == 0:
+            coll = node.comparators[0]
+            if isinstance(coll, ast.Call) and dotted(coll.func) in ('set', 'frozenset') and len(coll.args) == 1:
+                coll = coll.args[0]
+            o = order_of(coll)
+            if o is not None and o[1] == km:
+                return isinstance(node.ops[0], ast.NotIn) != neg
+        return None
+    for s in Interp(prog, Scenario(bind={'%s.protected' % me: Const(True)}, inline=noinline)).run(ul):
+        z = zero_free(render(s.ret))
+        if z is None:
+            raise AnalysisError('PrivKeyV4.unlocked: unrecognised form %s' % render(s.ret))
+        rep.check(z, 'C16.2', 'PrivKeyV4.unlocked', render(s.ret),
+                  'a protected key packet is unlocked iff none of its integers is the zero placeholder', where=ul.where, found=render(s.ret))
     pr = prog.method('pgpy.packet.packets', 'PrivKeyV4', 'protected')
-    for s in Interp(prog, Scenario(inline=noinline)).run(pr):
-        rep.check(render(s.ret) == 'bool(self.keymaterial.s2k)', 'C16.2', 'PrivKeyV4.protected', render(s.ret),
-                  'protection is what the S2K usage octet says', where=pr.where)
+    me = pr.params[0]
+    s2k = '%s.keymaterial.s2k' % me
+    for truth in (True, False):
+        for s in Interp(prog, Scenario(inline=noinline, oracle=lambda t, _v=truth: _v if t == s2k else None)).run(pr):
+            r = render(s.ret)
+            rep.check(r in ('bool(%s)' % s2k, '%s.__bool__()' % s2k, repr(truth)), 'C16.2', 'PrivKeyV4.protected', '%s -> %s' % (truth, r),
+                      'protection is what the S2K usage octet says', where=pr.where, found=r, scenario='s2k=%s' % truth)
     sb = prog.method('pgpy.packet.fields', 'String2Key', '__bool__')
-    for s in Interp(prog, Scenario(inline=noinline)).run(sb):
-        rep.check(render(s.ret).replace(' ', '') == '(self.usagein[254,255])', 'C16.2', 'String2Key.__bool__', render(s.ret),
-                  'secret material is protected iff the S2K usage octet is 254 or 255', where=sb.where)
+    me = sb.params[0]
+    wrong = []
+    for octet in range(256):
+        for s in Interp(prog, Scenario(bind={'%s.usage' % me: Const(octet)}, inline=noinline)).run(sb):
+            if not (isinstance(s.ret, Const) and isinstance(s.ret.value, bool)):
+                raise AnalysisError('String2Key.__bool__: %s is not decided for usage octet %d' % (render(s.ret), octet))
+            if s.ret.value != (octet in (254, 255)):
+                wrong.append(octet)
+    rep.check(not wrong, 'C16.2', 'String2Key.__bool__', 'true exactly for usage octets 254, 255',
+              'secret material is protected iff the S2K usage octet is 254 or 255', where=sb.where, expected=[254, 255],
+              found='differs for %s' % wrong[:8])
+
+
+def check_pkesk_selection(rep, prog):
+    """Addressed itself, the key unwraps the session-key packet that is a public-key session-key packet of its own algorithm
+    AND names its own key id.  "Addressed" is a scenario fact (own key id in message.encrypters, whichever way the test is
+    spelled or oriented); the selection filter is evaluated as a boolean function."""
+    fi = prog.method('pgpy.pgp', 'PGPKey', 'decrypt')
+    me, msg = fi.params[0], fi.params[1]
+    own = '%s.fingerprint.keyid' % me
+
+    def oracle(t):
+        m = re.match(r'^\((.+?) (not in|in) (.+)\)$', t)
+        if m and m.group(1) == own and m.group(3) in ('%s.encrypters' % msg, 'set(%s.encrypters)' % msg):
+            return m.group(2) == 'in'
+        return None
+    outs = Interp(prog, Scenario(bind={'%s.is_encrypted' % msg: Const(True)}, inline=noinline, oracle=oracle)).run(fi)
+    n = 0
+    for s in outs:
+        if s.raised is not None:
+            continue
+        dsk = [c for c in s.calls if c[0].endswith('.decrypt_sk')]
+        if not dsk:
+            rep.violation('C16.6', 'PGPKey.decrypt', 'no decrypt_sk call', 'the key never recovers a session key', where=fi.where)
+            continue
+        n += 1
+        t = dsk[0][0][:-len('.decrypt_sk')]
+        m = re.match(r'^next\(EACH\((\$[\d.]+) in %s\._sessionkeys if (.*);\1\)(?:, None)?\)$' % re.escape(msg), t)
+        if not m:
+            v = t if t in s.bound and s.bound[t] == '%s._sessionkeys' % msg else None
+            cond = s.filters.get(v) if v else None
+            if cond is None:
+                raise AnalysisError('PGPKey.decrypt: selection of the session-key packet %s not understood' % t[:120])
+        else:
+            v, cond = m.group(1), m.group(2)
+        fn = BoolFn(cond)
+        want = [('call', 'isinstance', (v, 'PKESessionKey')), ('eq', frozenset(('%s.pkalg' % v, '%s.key_algorithm' % me))),
+                ('eq', frozenset(('%s.encrypter' % v, own)))]
+        bad = None
+        for a in fn.assignments():
+            if fn.value(a) and not all(a.get(w) is True for w in want):
+                bad = bad or a
+        rep.check(bad is None, 'C16.6', 'PGPKey.decrypt', 'session-key packet selection %s' % t[:140],
+                  'with several recipients the packet used must be the one addressed to this key id (and algorithm)', where=fi.where,
+                  expected='isinstance(pk, PKESessionKey) and pk.pkalg == self.key_algorithm and pk.encrypter == self.fingerprint.keyid',
+                  found=t if bad is None else '%s passes a packet under [%s]' % (cond, keyaction._show(bad)))
+    if not n:
+        rep.violation('C16.6', 'PGPKey.decrypt', 'no decrypt_sk call', 'the key never recovers a session key', where=fi.where)
+
+
+def check_sessionkey_consumers(rep, prog):
+    """Every iteration over a `_sessionkeys` list reads class-specific attributes of an element only where an isinstance test of
+    that element guards the read: a filter of the comprehension / generator (placed before the read), or an enclosing `if` in
+    a loop body (guard clauses are already nested ifs after canonicalisation)."""
+    pk = prog.cls('pgpy.packet.packets', 'PKESessionKeyV3')
+    sk = prog.cls('pgpy.packet.packets', 'SKESessionKeyV4')
+    common = families.class_attr_names(pk) & families.class_attr_names(sk)
+
+    def is_guard(test, var):
+        """isinstance(var, ..) itself, or the first conjunct of an `and` chain"""
+        if isinstance(test, ast.BoolOp) and isinstance(test.op, ast.And):
+            return is_guard(test.values[0], var)
+        return isinstance(test, ast.Call) and dotted(test.func) == 'isinstance' and bool(test.args) and \
+            isinstance(test.args[0], ast.Name) and test.args[0].id == var
+
+    def reads(node, var):
+        return set(x.attr for x in ast.walk(node) if isinstance(x, ast.Attribute) and isinstance(x.value, ast.Name) and x.value.id == var)
+
+    def unguarded(stmts, var):
+        out = set()
+        for st in stmts:
+            if isinstance(st, ast.If) and is_guard(st.test, var):
+                first = st.test.values[0] if isinstance(st.test, ast.BoolOp) else st.test
+                out |= reads(first, var) | unguarded(st.orelse, var)
+            elif isinstance(st, ast.If):
+                out |= reads(st.test, var) | unguarded(st.body, var) | unguarded(st.orelse, var)
+            elif isinstance(st, (ast.For, ast.While, ast.With, ast.Try)):
+                for part in ('body', 'orelse', 'finalbody'):
+                    out |= unguarded(getattr(st, part, []) or [], var)
+                for h in getattr(st, 'handlers', []) or []:
+                    out |= unguarded(h.body, var)
+                for f_ in ('iter', 'test'):
+                    if getattr(st, f_, None) is not None:
+                        out |= reads(getattr(st, f_), var)
+            else:
+                out |= reads(st, var)
+        return out
+    n = 0
+    for fn in prog.all_functions():
+        for node in ast.walk(fn.node):
+            sites = []
+            if isinstance(node, (ast.GeneratorExp, ast.ListComp, ast.SetComp, ast.DictComp)):
+                for g in node.generators:
+                    if isinstance(g.target, ast.Name) and '_sessionkeys' in ast.unparse(g.iter):
+                        var, touched, guarded = g.target.id, set(), 'isinstance' in ast.unparse(g.iter)
+                        for i in g.ifs:
+                            if not guarded:
+                                if is_guard(i, var):
+                                    guarded = True
+                                    first = i.values[0] if isinstance(i, ast.BoolOp) else i
+                                    touched |= reads(first, var)
+                                else:
+                                    touched |= reads(i, var)
+                        if not guarded:
+                            touched |= reads(node.elt if not isinstance(node, ast.DictComp) else node.value, var)
+                            if isinstance(node, ast.DictComp):
+                                touched |= reads(node.key, var)
+                        sites.append((g.iter, var, touched))
+            elif isinstance(node, ast.For) and isinstance(node.target, ast.Name) and '_sessionkeys' in ast.unparse(node.iter):
+                var = node.target.id
+                pre = 'isinstance' in ast.unparse(node.iter)         # an inner generator may already have filtered
+                sites.append((node.iter, var, set() if pre else unguarded(node.body, var)))
+            for it, var, touched in sites:
+                n += 1
+                specific = sorted(a for a in touched if a not in common)
+                rep.check(not specific, 'C16.6', fn.qualname, 'iteration over %s touching %s' % (ast.unparse(it)[:50], specific),
+                          'a message can carry public-key and passphrase session-key packets at once; class-specific fields %s are read '
+                          'without an isinstance filter' % specific, where='%s:%d' % (fn.module.relpath, node.lineno),
+                          expected='isinstance(%s, <class>) filter' % var, found=ast.unparse(node)[:160])
+    return n
 
 
 def check_decrypt_delegation(rep, prog):
     fi = prog.method('pgpy.pgp', 'PGPKey', 'decrypt')
-    outs = Interp(prog, Scenario(bind={'message.is_encrypted': Const(True)}, inline=noinline)).run(fi)
+    me, msg = fi.params[0], fi.params[1]
+    outs = Interp(prog, Scenario(bind={'%s.is_encrypted' % msg: Const(True)}, inline=noinline)).run(fi)
     seen = False
+    subs = ('%s.subkeys' % me, '%s._children' % me)
+    enc = '%s.encrypters' % msg
     for s in outs:
         r = render(s.ret) if s.ret is not None else ''
-        if '.decrypt(message)' in r and r.startswith('self.subkeys['):
-            seen = True
-            rep.check('(set(self.subkeys) & set(message.encrypters))' in r, 'C16.6', 'PGPKey.decrypt', 'delegates to %s' % r,
-                      'delegation must go to a subkey whose key id is among the message\'s recipients', where=fi.where, found=r)
+        m = re.match(r'^(.+)\.decrypt\(%s\)$' % re.escape(msg), r)
+        if not m or m.group(1) == me:
+            continue
+        tgt = m.group(1)
+        idx = None
+        for sb in subs:
+            if tgt.startswith(sb + '[') and tgt.endswith(']'):
+                idx = tgt[len(sb) + 1:-1]
+        if idx is None and tgt in s.bound:
+            idx = tgt
+        pair = re.match(r'^(\$[\d.]+)_1$', tgt)
+        if idx is None and pair and s.bound.get(pair.group(1)) in [sb + '.items()' for sb in subs]:
+            idx = pair.group(1) + '_0'
+        if idx is None:
+            raise AnalysisError('PGPKey.decrypt: delegation target %s not understood' % tgt)
+        seen = True
+        sets = [r'(?:set\()?%s(?:\.keys\(\))?\)?' % re.escape(sb) for sb in subs]
+        encs = r'(?:set\()?%s\)?' % re.escape(enc)
+        inter = any(re.search(p, idx) for sp in sets for p in (r'%s & %s' % (sp, encs), r'%s & %s' % (encs, sp),
+                                                                  r'%s\.intersection\(%s\)' % (sp, encs), r'%s\.intersection\(%s\)' % (encs, sp)))
+        if idx in s.bound and any(re.search(p_, s.bound[idx]) for sp in sets for p_ in (r'%s & %s' % (sp, encs), r'%s & %s' % (encs, sp),
+                                                                                    r'%s\.intersection\(%s\)' % (sp, encs), r'%s\.intersection\(%s\)' % (encs, sp))):
+            inter = True               # for skid in <own subkey ids> & <recipients>: ...
+        member = path_relations(s).get(('cmp', 'in', idx, enc)) is True and \
+            (s.bound.get(idx) in subs + tuple(sb + '.keys()' for sb in subs) or (pair is not None and idx == pair.group(1) + '_0'))
+        if not (inter or member) and enc in idx:
+            raise AnalysisError('PGPKey.decrypt: choice of the delegate %s not understood' % idx)
+        rep.check(inter or member, 'C16.6', 'PGPKey.decrypt', 'delegates to %s' % r,
+                  'delegation must go to a subkey whose key id is among the message\'s recipients', where=fi.where, found=r)
     rep.check(seen, 'C16.6', 'PGPKey.decrypt', 'subkey delegation arm', 'a primary key must find and use the addressed subkey', where=fi.where)
     en = prog.method('pgpy.pgp', 'PGPMessage', 'encrypters')
-    for s in Interp(prog, Scenario(inline=noinline)).run(en):
-        r = render(s.ret)
-        rep.check(r.replace(' ', '') == 'set(EACH($1inself._sessionkeysifisinstance($1,PKESessionKey);$1.encrypter))', 'C16.6', 'PGPMessage.encrypters', r,
-                  'the recipient set is the key ids of the public-key session-key packets of the message', where=en.where)
+    me = en.params[0]
+    forms = ('set(EACH($1in%s._sessionkeysifisinstance($1,PKESessionKey);$1.encrypter))' % me,
+             'set().union(EACH($1in%s._sessionkeysifisinstance($1,PKESessionKey);$1.encrypter))' % me,
+             '{$1.encrypterfor$1in%s._sessionkeysifisinstance($1,PKESessionKey)}' % me)
+    outs = Interp(prog, Scenario(inline=noinline)).run(en)
+    if all(alpha(render(s.ret)).replace(' ', '') in forms for s in outs):
+        rep.ok('C16.6', 'PGPMessage.encrypters', 'key ids of the public-key session-key packets')
+        return
+    # built by a loop: run it for one session-key packet and read the truth table - its recipient id is added to the returned
+    # set exactly when the packet is a public-key session-key packet
+    el = Sym('SK', nonnull=True)
+    outs = Interp(prog, Scenario(unroll={'%s._sessionkeys' % me: [el]}, inline=noinline)).run(en)
+    is_pk = ('call', 'isinstance', ('SK', 'PKESessionKey'))
+    ok, detail = True, None
+    for assign in keyaction.assignments(outs):
+        for s in [x for x in outs if keyaction.consistent(x, assign)]:
+            r = render(s.ret)
+            added = [c[1] for c in s.calls if c[0] in ('%s.add' % r, '%s.append' % r)]
+            whole = alpha(r).replace(' ', '')
+            if added not in ([], [['SK.encrypter']]) or (not added and whole not in ('set()', 'set([])', '[]', '{SK.encrypter}', 'set([SK.encrypter])')):
+                raise AnalysisError('PGPMessage.encrypters: result %s (added %s) not understood' % (r, added))
+            has = bool(added) or 'SK.encrypter' in whole
+            if assign.get(is_pk) is None:
+                ok, detail = False, 'the packet class is not tested'
+            elif has != assign.get(is_pk):
+                ok, detail = False, 'under [%s] the recipient id is %s' % (keyaction._show(assign), 'added' if has else 'left out')
+    rep.check(ok, 'C16.6', 'PGPMessage.encrypters', 'recipient ids collected by a loop',
+              'the recipient set is the key ids of the public-key session-key packets of the message', where=en.where, found=detail)
